@@ -42,6 +42,11 @@ CONSTANTS
   AllowNested,          \* a thread that already holds a guard asks for another one (self-deadlock)
   OthersCall,           \* "never" | "atUser" | "always": when threads that hold nothing call patched functions
   KeepPagesWritable,    \* TRUE = what the kernel does (pages stay writable after the first patch)
+  Regen,                \* TRUE: while no injector exists the environment may replace a function's code (JIT output
+                        \* regenerated, a plugin unloaded and loaded again at the same address); what a lifetime restores is
+                        \* what IT found, not what an earlier lifetime found
+  SavedFrom,            \* "install" | "first" (deviation: the bytes to restore come from a process-wide table filled
+                        \* when the function was first seen and never invalidated)
   TrampFlushed          \* FALSE = the macOS variant as read from the source: clear_cache() is empty there and only
                         \* patch_function() invalidates the instruction cache, so trampoline contents written through
                         \* inject_asm_code() get no platform flush (cannot be executed or confirmed in this sandbox)
@@ -59,7 +64,7 @@ VARIABLES
   cur,       \* cur[t] = context of the installation in progress (or NoCtx)
   dropst,    \* dropst[t] = [restored, unmapped] : sets of guard indexes, during drop
   code,      \* code[f] : 1..SlotLen -> cell value
-  orig,      \* orig[f] : the cells before any injector existed (never changes)
+  orig,      \* orig[f] : the function's own cells (changed only by the environment: Regenerate)
   tramp,     \* tramp[id] = [state, content, frees, orphan]
   rw,        \* set of <<f, page>> made writable
   dirty,     \* set of locations written but not yet flushed
@@ -238,8 +243,19 @@ FlushTramp(t) ==
 
 ReadOrig(t) ==
   /\ InInstall(t) /\ Done(t, "gate") /\ ~Done(t, "read") /\ ~Done(t, "wentry") /\ LinearOk(t, "read")
-  /\ cur' = [cur EXCEPT ![t].done = @ \cup {"read"}, ![t].saved = SubSeq(code[cur[t].f], 1, cur[t].size)]
+  /\ cur' = [cur EXCEPT ![t].done = @ \cup {"read"},
+                         ![t].saved = IF SavedFrom = "install" THEN SubSeq(code[cur[t].f], 1, cur[t].size)
+                                      ELSE [i \in 1..cur[t].size |-> OrigCell(cur[t].f, i)]]
   /\ UNCHANGED <<lock, poisoned, th, inj, dropst, code, orig, tramp, rw, dirty, ctr, aborted, fault, inflight>>
+
+\* environment: the code of a function is replaced while nobody holds the lock and nothing is installed on it
+RegenTag(tag) == IF tag = "o" THEN "r1" ELSE IF tag = "r1" THEN "r2" ELSE "r3"
+Regenerate(f) ==
+  /\ Regen /\ lock = Free /\ code[f] = orig[f] /\ orig[f][1][1] \in {"o", "r1", "r2"}
+  /\ \A t \in Threads : th[t].pc \in {"idle", "waiting"} /\ inflight[t] = 0
+  /\ orig' = [orig EXCEPT ![f] = [i \in 1..SlotLen |-> <<RegenTag(orig[f][1][1]), f, i>>]]
+  /\ code' = [code EXCEPT ![f] = [i \in 1..SlotLen |-> <<RegenTag(orig[f][1][1]), f, i>>]]
+  /\ UNCHANGED <<lock, poisoned, th, inj, cur, dropst, tramp, rw, dirty, ctr, aborted, fault, inflight>>
 
 SpanPages(f, size) ==
   IF MprotectSpan = "range" THEN {<<f, Page(f, i)>> : i \in 1..size} ELSE {<<f, Page(f, 1)>>}
@@ -469,6 +485,7 @@ Next ==
        \/ GuardsDone(t) \/ Verify(t) \/ Unlock(t)
        \/ Abandon(t) \/ NestedBegin(t) \/ OtherExec(t)
        \/ \E f \in Funcs : OtherEnter(t, f)
+       \/ \E f \in Funcs : Regenerate(f)
 
 Spec == Init /\ [][Next]_vars
 
